@@ -57,6 +57,10 @@ CHECKS = {
    text="Generated attack schedules (rapid reset with parked handlers, half-open streams, PRIORITY on new ids, CONTINUATION floods incl. a never-completed string, oversized / mis-declared bodies, oversized header lists, PING/SETTINGS floods) against small limits; invariants at every quiescent point: concurrent handlers <= MaxConcurrentStreams, no handler for a request over a limit, stream table / closed-id memory / buffered header and body octets within limit-derived bounds (high-water marks from the stream loop's own gauges); playing the schedule four times must leave the gauges where one pass leaves them. Exploration only.",
    note="Trusted: gauges published by the hook at the top of each stream-loop iteration; the bounds are derived from the configured limits plus one frame.",
    ref="6.2 C13"),
+ "C17": dict(technique="fault-injecting property-based testing (rapid): recorded well-formed byte streams x cut offsets x structure-aware mutations x frame soups x peer/transport faults; invariants from the server log, goroutine dumps attributed to the connection, and the pool observer",
+   text="Recorded well-formed client streams are delivered up to any byte, mutated frame-wise, extended with frame soup, with the peer not reading or the server's writes failing from any octet, ended by EOF or reset, with handlers released before or after the disconnect. Checked: no panic in the server's log (recovered ones count) and no process death (crash journal), ServeConn returns within 6 s of the peer being gone, only harness-held handler goroutines of that connection remain (none after release), no RequestCtx is returned to its pool while its handler is inside, no double release. Exploration (random cut points and mutations, not every offset of every recording).",
+   note="Trusted: goroutine dumps filtered by the connection object's address (hook), pool observer, captured logger.",
+   ref="6.2 C17"),
 }
 PENDING = {}  # id -> reason, for properties not claimed (yet)
 
